@@ -2,7 +2,7 @@
     bool, option, unit, prod, list, sumbool map to OCaml's; N/positive/nat/Z stay extracted datatypes).
     Separate extraction: one OCaml module per Coq module, so model names never clash. *)
 From Coq Require Import ExtrOcamlBasic NArith List.
-From XV Require Import Conc.Lts Conc.Ev Model.ChaseDefs Model.SeqlockDefs Model.LeftRightDefs Model.VyukovDefs Model.MsqDefs Model.TblDefs Model.HmlDefs Model.HmlItDefs Model.EbrDefs Model.HpDefs Model.VhmDefs Model.VhmItDefs Model.RamDefs Model.KfbDefs Model.QsbrDefs Model.LfrcDefs Model.NikbDefs Model.KfqDefs Model.HeDefs Model.HmmDefs Model.VhmGrowDefs Model.NikqDefs Model.GebrDefs.
+From XV Require Import Conc.Lts Conc.Ev Model.ChaseDefs Model.SeqlockDefs Model.LeftRightDefs Model.VyukovDefs Model.MsqDefs Model.TblDefs Model.HmlDefs Model.HmlItDefs Model.EbrDefs Model.HpDefs Model.VhmDefs Model.VhmItDefs Model.RamDefs Model.KfbDefs Model.QsbrDefs Model.LfrcDefs Model.NikbDefs Model.KfqDefs Model.HeDefs Model.HmmDefs Model.VhmGrowDefs Model.NikqDefs Model.GebrDefs Model.StampDefs.
 Extraction Language OCaml.
 Separate Extraction Lts.run N.of_nat N.to_nat
   ChaseDefs.step ChaseDefs.init
@@ -27,4 +27,5 @@ Separate Extraction Lts.run N.of_nat N.to_nat
   HmmDefs.step HmmDefs.init HmmDefs.hf_id HmmDefs.hf_const HmmDefs.hf_mod2 HmmDefs.hf_rev
   VhmGrowDefs.step VhmGrowDefs.init
   NikqDefs.qstep NikqDefs.qinit
-  GebrDefs.step GebrDefs.init.
+  GebrDefs.step GebrDefs.init
+  StampDefs.step StampDefs.step_gen StampDefs.init.
